@@ -77,6 +77,8 @@ class Config:
     def name(self):
         n = "%s-%s%s-%s" % ({"g++": "gcc", "clang++": "clang"}[self.cxx], self.std.replace("c++", "cxx"),
                             self.opt, self.macro_name)
+        if "-DAVEL_AUTO_DETECT" in self.extra:
+            n += "-autodetect" + "".join(e.replace("-march=", "-") for e in self.extra if e.startswith("-march="))
         if self.san:
             n += "-" + self.san_mode
         return n
@@ -117,7 +119,7 @@ EVERYTHING = ALL512 + ["LZCNT", "BMI2", "BMI", "POPCNT"]
 def lattice_macro_sets():
     """Thorough-tier macro lattice (DESIGN 2.2)."""
     L = [[], ["X86"], ["POPCNT"], ["LZCNT"], ["BMI"], ["BMI2"], ["POPCNT", "LZCNT", "BMI", "BMI2"],
-         ["SSE2"], ["SSE3"], ["SSSE3"], ["SSE4_1"], ["SSE4_1", "POPCNT"], ["SSE4_2"], ["AVX"], ["AVX2"],
+         ["SSE2"], ["SSE2", "POPCNT"], ["SSE3"], ["SSSE3"], ["SSSE3", "POPCNT"], ["SSE4_1"], ["SSE4_1", "POPCNT"], ["SSE4_2"], ["AVX"], ["AVX2"],
          ["FMA"], ["AVX2", "FMA"]]
     for v in ("SSE2", "SSE4_1", "AVX2"):
         for s in ("LZCNT", "BMI", "BMI2"):
